@@ -35,11 +35,14 @@ Proof.
   inversion F as [|? ? Fx Fl]; subst. inversion W as [|? ? Wx Wl]; subst. cbn [map]. rewrite (Fx Wx), (IH Fl Wl). reflexivity.
 Qed.
 
+Lemma pr_name n : is_kw n = false -> pr (Ty (CNamed [n]) None None None) = [TId n].
+Proof. intros H. cbn [pr pr_rt pr_cat pr_path app]. rewrite (kw_nonempty n H). reflexivity. Qed.
+
 (* printing the expected parse tree gives back the source tokens *)
 Theorem print_embed : forall t, wf t -> pr (embed t) = lex t.
 Proof.
   induction t as [s0 segs args IH|lt t IH|l tr IH|t len IH|a|] using g_ind2; intros W.
-  - cbn in W. destruct W as [_ Wa]. fold (wf_all args) in Wa. cbn [embed lex]. rewrite pr_eq. cbn [pr_rt pr_cat pr_path app].
+  - cbn in W. destruct W as [Hkw Wa]. fold (wf_all args) in Wa. cbn [embed lex]. rewrite pr_eq. cbn [pr_rt pr_cat pr_path]. rewrite (kw_nonempty s0 Hkw). cbn [app].
     destruct args as [|a0 args]; [rewrite app_nil_r; reflexivity|].
     rewrite (map_pr_embed _ IH Wa). reflexivity.
   - cbn in W. destruct W as [Hb Wt]. cbn [embed]. fold (set_rt (Some lt) (embed t)).
@@ -52,7 +55,8 @@ Proof.
       * cbn [map]. change [pr unnamed] with [@nil tt]. apply sep_comma_snoc_empty. discriminate.
       * cbn [map]. rewrite !app_nil_r. reflexivity.
   - cbn in W. destruct W as [Wt Hlen]. cbn [embed lex]. rewrite pr_eq. cbn [pr_rt app]. rewrite pr_cat_array, app_nil_r, (IH Wt).
-    destruct len as [[n|s]|]; try reflexivity. rewrite app_nil_r. reflexivity.
+    destruct len as [[n|s]|]; [reflexivity| |rewrite app_nil_r; reflexivity].
+    cbn [pr_cvt pr pr_rt pr_cat pr_path app]. rewrite (kw_nonempty s Hlen). reflexivity.
   - reflexivity.
   - reflexivity.
 Qed.
